@@ -2,6 +2,7 @@ package bindnode
 
 import (
 	"fmt"
+	"math"
 	"reflect"
 	"strings"
 
@@ -810,6 +811,10 @@ func (w *_assemblerRepr) assignUInt(uin datamodel.UintNode) error {
 		uin, err := uin.AsUint()
 		if err != nil {
 			return err
+		}
+		if uin <= math.MaxInt64 {
+			// an integer like any other, it merely arrived as a UintNode
+			return w.AssignInt(int64(uin))
 		}
 		return fmt.Errorf("AssignInt: %d is not a valid member of enum %s", uin, w.schemaType.Name())
 	default:
